@@ -193,6 +193,16 @@ var procDir = sync.OnceValue(func() string {
 	return d
 })
 
+// poisoned is set after a panic inside portbase was recovered: a portbase mutex
+// may still be locked, so no further case can be run in this process.
+var poisoned atomic.Pointer[string]
+
+func (mc *machine) panicked(what string, pv any) {
+	msg := fmt.Sprintf("%s panicked: %v", what, pv)
+	poisoned.CompareAndSwap(nil, &msg)
+	mc.failf("%s", msg)
+}
+
 func (mc *machine) failf(format string, a ...any) {
 	msg := fmt.Sprintf(format, a...)
 	var sb strings.Builder
@@ -221,7 +231,14 @@ func (mc *machine) log(format string, a ...any) {
 
 // resetGlobal brings the process-global config state back to the registered
 // defaults through the exported API (plus the guarded registry reset).
-func resetGlobal(t *rapid.T) {
+type fataler interface {
+	Fatalf(format string, args ...any)
+}
+
+func resetGlobal(t fataler) {
+	if p := poisoned.Load(); p != nil {
+		t.Fatalf("%s  (this process recovered that panic earlier; portbase locks may still be held, so every later case in the process fails with this message)", *p)
+	}
 	relOpt, err := config.GetOption(relKey)
 	if err != nil {
 		t.Fatalf("built-in release level option missing: %v", err)
@@ -287,6 +304,9 @@ func newMachine(t *rapid.T, minOpts, maxOpts int) *machine {
 }
 
 func (mc *machine) finish() {
+	if poisoned.Load() != nil {
+		return
+	}
 	config.VerifSetConfigFile("")
 	_ = os.Remove(mc.path)
 }
@@ -385,12 +405,7 @@ func (mc *machine) checkFull() {
 	for _, g := range mc.getters {
 		mc.checkGetter(g)
 	}
-	// fresh getters ("created later")
 	lvl := mc.m.effectiveLevel()
-	if got := config.VerifReleaseLevel(); got != lvl {
-		mc.failf("release level gate used by the getters is %d, but the effective (layered) value of %s is %d [user layer: %v, default layer: %v]",
-			got, relKey, lvl, render(mc.m.user[relKey]), render(mc.m.def[relKey]))
-	}
 	wantActive := map[string]any{}
 	for _, s := range mc.m.specs {
 		opt, err := config.GetOption(s.key)
@@ -684,6 +699,24 @@ func (mc *machine) genEntries(label string) (entries map[string]any, classes []s
 	return entries, classes
 }
 
+// flatten is the harness' own rendering of "a hierarchical config denotes the
+// flat map of its leaves" (keys joined with "/").
+func flatten(m map[string]any) map[string]any {
+	out := map[string]any{}
+	var walk func(prefix string, sub map[string]any)
+	walk = func(prefix string, sub map[string]any) {
+		for k, v := range sub {
+			if child, ok := v.(map[string]interface{}); ok {
+				walk(prefix+k+"/", child)
+			} else {
+				out[prefix+k] = v
+			}
+		}
+	}
+	walk("", m)
+	return out
+}
+
 func copyMap(m map[string]any) map[string]interface{} {
 	out := make(map[string]interface{}, len(m))
 	for k, v := range m {
@@ -883,7 +916,7 @@ func (mc *machine) run(p *prepared) {
 	mc.log("%s", p.desc)
 	o := safely(p.exec)
 	if o.pv != nil {
-		mc.failf("%s panicked: %v", p.desc, o.pv)
+		mc.panicked(p.desc, o.pv)
 	}
 	p.apply(o.res)
 }
@@ -899,7 +932,7 @@ func (mc *machine) opValidate() {
 		return nil
 	})
 	if o.pv != nil {
-		mc.failf("%s panicked: %v", desc, o.pv)
+		mc.panicked(desc, o.pv)
 	}
 	_, invalid, either, wantUnknown := mc.judgeEntries(entries)
 	mc.compareReported(desc, reportedKeys(errs), invalid, either)
@@ -912,6 +945,9 @@ func (mc *machine) opValidate() {
 func (mc *machine) opPerspective() {
 	entries, _ := mc.genEntries("perspective")
 	arg := copyMap(entries)
+	// NewPerspective flattens its argument: an entry whose value is a JSON
+	// object is not an entry for that key but a set of entries below it.
+	entries = flatten(entries)
 	form := "flat"
 	if rapid.Bool().Draw(mc.t, "hierarchical") {
 		arg = config.Expand(arg)
@@ -926,7 +962,7 @@ func (mc *machine) opPerspective() {
 		return nil
 	})
 	if o.pv != nil {
-		mc.failf("%s panicked: %v", desc, o.pv)
+		mc.panicked(desc, o.pv)
 	}
 	valid, invalid, either, _ := mc.judgeEntries(entries)
 	if len(invalid) > 0 && err == nil {
@@ -986,7 +1022,24 @@ func (mc *machine) opParkedGetter() {
 		}
 	}
 	g := cands[rapid.IntRange(0, len(cands)-1).Draw(t, "parked_getter")]
-	m2 := mc.prepMutation()
+	var m2 *prepared
+	switch k := rapid.IntRange(0, 9).Draw(t, "interleaved_kind"); {
+	case k <= 5 && g.spec.typ == g.typ:
+		// a valid set on the option the parked getter reads: the case the hand-over is about
+		v := g.spec.validCandidates()
+		raw := shapeOf(t, copyCanon(v[rapid.IntRange(0, len(v)-1).Draw(t, "valid")]))
+		m2 = mc.prepSet(rapid.IntRange(0, 2).Draw(t, "interleaved_layer") != 2, g.spec, raw, "valid")
+	case k <= 7:
+		// a release level change, which moves every non-stable option at once
+		lv := rapid.SampledFrom([]any{"experimental", "beta", "stable", nil}).Draw(t, "interleaved_level")
+		cl := "valid"
+		if lv == nil {
+			cl = "nil"
+		}
+		m2 = mc.prepSet(rapid.IntRange(0, 2).Draw(t, "interleaved_layer") != 2, mc.m.specs[0], lv, cl)
+	default:
+		m2 = mc.prepMutation()
+	}
 	sameGetterToo := g.conc && rapid.IntRange(0, 9).Draw(t, "b_calls_parked_getter") == 0
 	before := expected(g, mc.m)
 	mc.log("PARK %s at config.get.refresh, meanwhile: %s", g, m2.desc)
@@ -999,7 +1052,7 @@ func (mc *machine) opParkedGetter() {
 	}
 	oa, ob, reached, locked := runParked("config.get.refresh", g.call, b)
 	if oa.pv != nil {
-		mc.failf("getter %s panicked: %v", g, oa.pv)
+		mc.panicked("getter "+g.String(), oa.pv)
 	}
 	if !reached {
 		mc.class("pause_get_refresh_not_reached_getter_was_fresh")
@@ -1010,7 +1063,7 @@ func (mc *machine) opParkedGetter() {
 		return
 	}
 	if ob.pv != nil {
-		mc.failf("%s panicked: %v", m2.desc, ob.pv)
+		mc.panicked(m2.desc, ob.pv)
 	}
 	m2.apply(ob.res)
 	after := expected(g, mc.m)
@@ -1036,7 +1089,7 @@ func (mc *machine) opParkedGetter() {
 func (mc *machine) run2(p *prepared) {
 	o := safely(p.exec)
 	if o.pv != nil {
-		mc.failf("%s panicked: %v", p.desc, o.pv)
+		mc.panicked(p.desc, o.pv)
 	}
 	p.apply(o.res)
 }
@@ -1077,7 +1130,7 @@ func (mc *machine) opParkedSetter() {
 	}
 	oa, ob, reached, locked := runParked(point, a.exec, reads)
 	if oa.pv != nil {
-		mc.failf("%s panicked: %v", a.desc, oa.pv)
+		mc.panicked(a.desc, oa.pv)
 	}
 	a.apply(oa.res)
 	name := strings.ReplaceAll(strings.TrimPrefix(point, "config."), ".", "_")
@@ -1086,7 +1139,7 @@ func (mc *machine) opParkedSetter() {
 		return
 	}
 	if ob.pv != nil {
-		mc.failf("getter panicked while %s was parked: %v", a.desc, ob.pv)
+		mc.panicked("a getter (while "+a.desc+" was parked)", ob.pv)
 	}
 	if locked {
 		mc.class("pause_" + name + "_excluded_by_locking")
